@@ -1,6 +1,7 @@
 package vkit
 
 import (
+	"context"
 	"errors"
 	"fmt"
 	"io"
@@ -90,6 +91,13 @@ func OutcomeError(outcome string) error {
 		return errors.New("probe foreign error") //nolint:goerr113
 	case "eof":
 		return fmt.Errorf("probe wrapped: %w", io.EOF)
+	case "canceled":
+		// what a mechanism calling a remote system reports when the call is abandoned
+		return errorchain.NewWithMessage(heimdall.ErrCommunication, "probe call canceled").CausedBy(context.Canceled)
+	case "canceled-bare":
+		return fmt.Errorf("probe wrapped: %w", context.Canceled)
+	case "deadline":
+		return errorchain.NewWithMessage(heimdall.ErrCommunicationTimeout, "probe deadline").CausedBy(context.DeadlineExceeded)
 	case "inject":
 		InjectedError.Lock()
 		err, doPanic := InjectedError.Err, InjectedError.Panic
